@@ -251,3 +251,35 @@ fn link_with_gcc(
 
     Ok(())
 }
+
+/// Hooks for the verification harness (compiled only with `--cfg capy_verif`).
+#[cfg(capy_verif)]
+pub mod verif_hooks {
+    use cranelift::prelude::types;
+    use hir::common::{ParamTy, Ty};
+    use internment::Intern;
+
+    /// The x86-64 System V lowering of a function type: computes the layouts of all the types
+    /// involved for 64-bit pointers, then returns how the return value and each argument
+    /// travel (see `FnAbi::verif_describe`).
+    pub fn sysv_fn_abi(
+        params: &[Intern<Ty>],
+        ret: Intern<Ty>,
+    ) -> (Option<String>, Vec<(u16, String)>) {
+        let all = || params.iter().copied().chain(std::iter::once(ret));
+        crate::layout::calc_layouts(all(), 64);
+        crate::convert::calc_finals(all(), types::I64);
+
+        let params: Vec<ParamTy> = params
+            .iter()
+            .map(|ty| ParamTy {
+                ty: *ty,
+                comptime: None,
+                varargs: false,
+                impossible_to_differentiate: false,
+            })
+            .collect();
+
+        crate::convert::abi::x86_64::fn_ty_to_abi((&params, ret)).verif_describe()
+    }
+}
